@@ -58,16 +58,17 @@ from spyne.util.cdict import cdict
 
 _date_re = re.compile(DATE_PATTERN)
 _time_re = re.compile(TIME_PATTERN)
-_time_offset_re = re.compile(r'(?P<tz_hr>[+-]\d{2}):(?P<tz_min>\d{2})$')
+_time_offset_re = re.compile(
+                        r'(?P<tz_hr>[+-][0-9]{2}):(?P<tz_min>[0-9]{2})$')
 _duration_re = re.compile(
         r'(?P<sign>-?)'
         r'P'
-        r'(?:(?P<years>\d+)Y)?'
-        r'(?:(?P<months>\d+)M)?'
-        r'(?:(?P<days>\d+)D)?'
-        r'(?:T(?:(?P<hours>\d+)H)?'
-        r'(?:(?P<minutes>\d+)M)?'
-        r'(?:(?P<seconds>\d+(\.\d+)?)S)?)?'
+        r'(?:(?P<years>[0-9]+)Y)?'
+        r'(?:(?P<months>[0-9]+)M)?'
+        r'(?:(?P<days>[0-9]+)D)?'
+        r'(?:T(?:(?P<hours>[0-9]+)H)?'
+        r'(?:(?P<minutes>[0-9]+)M)?'
+        r'(?:(?P<seconds>[0-9]+(\.[0-9]+)?)S)?)?'
     )
 
 
